@@ -32,6 +32,7 @@ RULE += ' Round 7: get_amplitudes_true / templates_channels and refused requests
 RULE += ' Round 8: save_spikes_subset_waveforms(max_n_channels > 12) between template requests; geometries in metres / millimetres, distances compared relative to the geometry; exactly silent channels inside the neighbourhood.'
 RULE += ' Round 9: one template seven orders of magnitude larger than the others.'
 RULE += ' Round 11: datasets shipping only the inverse whitening matrix.'
+RULE += ' Round 12: the caller writes into model.wm of an unwhitened dataset before the requests.'
 EXHAUSTIVE = {'quick': False, 'thorough': False}
 FLOORS = {'quick': {'evaluations': 15000, 'distinct_nontrivial': 8000},
           'thorough': {'evaluations': 80000, 'distinct_nontrivial': 30000}}
